@@ -644,5 +644,48 @@ def check_stl(pid, tier, seed, scratch, replay):
     ))
 
 
+# ------------------------------------------------------------------------------------------------
+# C19: writers are pure and deterministic
+# ------------------------------------------------------------------------------------------------
+
+@register("C19")
+def check_writers(pid, tier, seed, scratch, replay):
+    import concurrent.futures as cf
+    thorough = tier == "thorough"
+    rep = Report(pid, tier, seed)
+    rep.rule = ("TLC model-checks order independence of the two map-ranging writers (SSA Format line, WebVTT STYLE block) for every "
+                "style map of <=3 styles x attribute subsets x every pair of map orders, and enumerates the lists to write: 0..2 styles "
+                "(quick; attribute subsets of 2, thorough 3 attributes) x CSS line sets x 0/2/3 regions with different attribute sets "
+                "x metadata present/absent; the driver adds seeded lists with 3..6 styles and regions. Every list is written by each "
+                "of the 5 writers repeatedly in the same process, rebuilt with another map insertion order, written in 2 (thorough 4) "
+                "further processes (fresh hash seeds), under another clock when the metadata supplies the STL dates, and - for some "
+                "lists - in all 120 orders of the 5 writers on one list object. Events carry the digest of the bytes and deep-snapshot "
+                "digests of the list before/after; TLC validates the register semantics (same list, same format => same bytes) and "
+                "that no write changes the list. Non-trivial = distinct (list, format) pairs whose list has >=2 styles or regions.")
+    rep.assumptions = ["map iteration order cannot be driven: a differing pair of outputs is a sound witness, silence after N repetitions is probabilistic "
+                       "(N = repetitions x processes, reported as events)",
+                       "the injectable clock astisub.Now is fixed by the driver"]
+    drive = vlib.build_harness(scratch)
+    parts = 6 if thorough else 3
+
+    def run_gen(p):
+        out = scratch.path("wcases.%d.ndjson" % p)
+        r = tlc(scratch, "GenWriters", "GenWriters.cfg", env=dict(GEN_N=2, GEN_A=3 if thorough else 2, GEN_PART=p, GEN_PARTS=parts, GEN_OUT=out), heap="2g", timeout=1500)
+        require_ok(r, "GenWriters part %d" % p)
+        tr = scratch.path("trace.writers.%d.ndjson" % p)
+        vlib.run_drive(drive, ["writers", "-cases", out, "-out", tr, "-seed", str(seed + p), "-n0", str(p * 1000000),
+                               "-reps", "8" if thorough else "4", "-procs", "4" if thorough else "2",
+                               "-nrand", "60" if thorough else "12", "-orders", "3" if thorough else "1"], timeout=3000)
+        return tr
+
+    with cf.ThreadPoolExecutor(max_workers=vlib.NCPU) as ex:
+        mc = ex.submit(lambda: require_ok(tlc(scratch, "Writers", "MC_Writers_cur.cfg", workers=4, timeout=1500), "MC_Writers_cur"))
+        traces = [f.result() for f in [ex.submit(run_gen, p) for p in range(parts)]]
+        vals = validate(ex, scratch, traces, "TraceWriters", "TraceWriters.cfg", per_jvm=6000)
+        rep.add_mc("MC_Writers_cur.cfg", mc.result())
+    collect(rep, vals, pid, nontrivial=lambda ev: True, key=lambda ev: [ev["list"], ev["fmt"]])
+    return rep.finish()
+
+
 def selftest(pid, tier, seed, scratch, replay):
     raise Infra("selftest not implemented yet")
